@@ -77,6 +77,15 @@ def family(n, idk, refk):
         'unreg20': dict(common20, type='x-unreg-thing', id=u('x-unreg-thing'), name='n'),
         'widget21': dict(common21, type='x-sim-widget', id=u('x-sim-widget'), name='w'),
         'widget20': dict(common20, type='x-sim-widget', id=u('x-sim-widget'), name='w'),
+        # marking references (the properties every object type gets from the common list or, for custom types, from the decorator)
+        'marked20': dict(common20, type='identity', id=u('identity'), name='n', identity_class='individual', object_marking_refs=[r('marking-definition')]),
+        'marked21': dict(common21, type='identity', id=u('identity'), name='n', object_marking_refs=[r('marking-definition')]),
+        'widget_marked20': dict(common20, type='x-sim-widget', id=u('x-sim-widget'), name='w', object_marking_refs=[r('marking-definition')]),
+        'widget_marked21': dict(common21, type='x-sim-widget', id=u('x-sim-widget'), name='w', object_marking_refs=[r('marking-definition')]),
+        'widget_gm20': dict(common20, type='x-sim-widget', id=u('x-sim-widget'), name='w',
+                            granular_markings=[{'marking_ref': r('marking-definition'), 'selectors': ['name']}]),
+        'widget_gm21': dict(common21, type='x-sim-widget', id=u('x-sim-widget'), name='w',
+                            granular_markings=[{'marking_ref': r('marking-definition'), 'selectors': ['name']}]),
         'custom_prop21': dict(common21, type='identity', id=u('identity'), name='n', x_foo='bar'),
         'custom_prop20': dict(common20, type='identity', id=u('identity'), name='n', identity_class='individual', x_foo='bar'),
     }
@@ -95,10 +104,10 @@ class C14(Profile):
     probes = ['named_version_differs_from_detected', 'nonrfc_id_rejected', 'uuidv1_id', 'accepted_object_checked',
               'rejected_by_both', 'dict_returned', 'roundtrip_checked', 'fs_entry', 'memory_entry', 'load_entry',
               'nonrfc_ref_rejected', 'fs_layout_flat', 'fs_layout_flat_in_versioned_dir', 'fs_layout_versioned',
-              'store_already_held_this_version', 'history_of_mixed_spec_versions_on_disk', 'bundlified_file_read_with_named_version', 'timestamps_as_values_of_a_2.1_object']
+              'non_v4_identifier_under_2.0', 'store_already_held_this_version', 'history_of_mixed_spec_versions_on_disk', 'bundlified_file_read_with_named_version', 'timestamps_as_values_of_a_2.1_object']
     rule = ('plans: 20-60 ops, each = (entry point among parse_observable, Memory{Store,Source,Sink} construction/add/load, '
             'FileSystem{Sink,Store}.add, FileSystem{Source,Store}.get/all_versions/query, Environment.add) x version in {None,2.0,2.1} x '
-            'allow_custom x one of 23 inputs that separate the versions (differing required properties, spec_version present/absent, '
+            'allow_custom x one of 29 inputs that separate the versions (differing required properties, spec_version present/absent, '
             'UUIDv1/v5/non-RFC-4122/garbage ids and references); non-trivial = >=1 accepted object compared with the direct parser AND '
             '>=1 store state change; distinct = distinct plan digests')
     state_measure = 'distinct (entry point, named version, allow_custom, input kind, id kind, outcome) tuples'
@@ -367,7 +376,8 @@ class C14(Profile):
         world.log(op=ep, v=v, a=a, inp=op['inp'], idk=op['idk'], refk=op['refk'], outcome=out.tag,
                   ref=(ref.tag if ref else None))
         bad_id = op['idk'] in ('nonrfc', 'garbage') and 'id' in d
-        bad_ref = op['refk'] in ('nonrfc', 'garbage') and any(k.endswith('_ref') for k in d)
+        has_ref = any(k.endswith('_ref') or k.endswith('_refs') or k == 'granular_markings' for k in d)
+        bad_ref = op['refk'] in ('nonrfc', 'garbage') and has_ref
         registered = d['type'] not in ('x-unreg-thing',)
         if d['type'] in ('file', 'ipv4-addr') and (v or detected) == '2.0':
             # interpreted as a 2.0 observable: `id` is not an identifier property there (it is custom content)
@@ -378,6 +388,17 @@ class C14(Profile):
                             dict(input=d, version=v, allow_custom=a))
         if not out.ok and (bad_id or bad_ref):
             world.probe('nonrfc_id_rejected' if bad_id else 'nonrfc_ref_rejected')
+        # (3b) under 2.0 an identifier is a version-4 UUID - in `id` and in every reference property, of built-in and of registered
+        # custom types alike; content accepted as 2.0 with a version 1 / 5 UUID was validated by another version's rules
+        eff = v or detected
+        if eff == '2.0' and registered and d['type'] not in ('file', 'ipv4-addr'):
+            odd_id = op['idk'] in ('v1', 'v5') and 'id' in d
+            odd_ref = op['refk'] in ('v1', 'v5') and has_ref
+            if odd_id or odd_ref:
+                world.probe('non_v4_identifier_under_2.0')
+                if out.ok and (objs is None or objs) and not (op.get('bundlified') and ep.startswith('fs_') and 'add' not in ep):
+                    raise Violation('strictness', 'C14.strictness-2.0/%s/%s/%s' % (ep, 'id' if odd_id else 'ref', d['type']),
+                                    dict(input=d, version=v, allow_custom=a))
         # (2) differential against the direct parser
         if ref is not None:
             accepted = out.ok and (objs is None or len(objs) > 0)
